@@ -169,7 +169,7 @@ Proof.
     (* inline teardown: a pending dial callback is failed first *)
     all: destruct (pend s) eqn:Epd.
     all: try (destruct (dial_token s HI) as [Hkd Hd]; [left; exact Epd|]; try congruence).
-    all: unfold cs_of; simpc; rewrite ?Epd, ?Ek, ?Hcr, ?Hfo, ?Hn, ?Eck, ?Hd; simpc; rewrite ?Hcr, ?Eck; simpc; try reflexivity.
+    all: unfold cs_of; simpc; rewrite ?Epd, ?Ek, ?Hcr, ?Hfo, ?Hn, ?Eck, ?Hd; simpc; rewrite ?Hcr, ?Eck, ?app_nil_r; simpc; try reflexivity.
   - (* ARunJob *)
     destruct (jobs s) as [|[e|r] tl] eqn:Ej; [reflexivity| |].
     + destruct (jnotify_head s e tl HI Ej) as (Hn & Hk & Hf).
@@ -193,29 +193,69 @@ Proof.
   intros Hc. unfold legal. change cinit with (cs_of init). rewrite trace_check; auto. apply init_Inv.
 Qed.
 
+(* without rejected registrations every connection handed to an engine is managed *)
+Definition InvM (s : st) : Prop := knd s <> KNone -> managed s = true /\ rej s = false.
+
+Lemma step_M s a : InvK s -> clean_action a = true -> InvM s -> InvM (fst (step s a)).
+Proof.
+  intros HK Hc HM. unfold InvM in *. destruct (knd s) eqn:Ek.
+  - rewrite (HK Ek) in *. destruct a; cbn in *; break; cbn; intros; try discriminate; auto; congruence.
+  - assert (Hk : knd s <> KNone) by congruence. rewrite Ek in Hk. specialize (HM Hk). intros _.
+    destruct HM as [Hm Hr]. destruct a; cbn [step]; unfold teardown, set_closed; rewrite ?Ek; break; simp; auto; try discriminate; try congruence.
+  - assert (Hk : knd s <> KNone) by congruence. rewrite Ek in Hk. specialize (HM Hk). intros _.
+    destruct HM as [Hm Hr]. destruct a; cbn [step]; unfold teardown, set_closed; rewrite ?Ek; break; simp; auto; try discriminate; try congruence.
+Qed.
+
+Lemma run_M acts : forall s, Inv s -> clean acts = true -> InvM s -> InvM (run s acts).
+Proof.
+  induction acts as [|a acts IH]; intros s HI Hc HM; cbn [run]; auto.
+  cbn in Hc. apply andb_true_iff in Hc. destruct Hc as [Ha Hc].
+  apply IH; auto; [apply step_Inv, HI | apply step_M; auto; apply HI].
+Qed.
+
 Theorem complete_run acts : clean acts = true ->
   let s := run init acts in
   quiescent s = true -> closed s = true -> complete (trace init acts) = true.
 Proof.
   intros Hc s Hq Hcl. unfold complete. change cinit with (cs_of init). rewrite trace_check; auto; [|apply init_Inv].
   fold s. assert (HI : Inv s) by (apply run_Inv, init_Inv).
-  assert (Hm : managed s = true).
-  { (* an unmanaged connection comes from a rejected registration only *)
-    clear Hq Hcl. subst s. revert Hc. generalize init_Inv. generalize init at 1 3.
-    assert (G : forall acts s, Inv s -> (knd s <> KNone -> managed s = true) -> clean acts = true -> knd (run s acts) <> KNone -> managed (run s acts) = true).
-    { clear. induction acts as [|a acts IH]; intros s HI Hm Hc; cbn [run]; auto.
-      cbn in Hc. apply andb_true_iff in Hc. destruct Hc as [Ha Hc]. apply IH; auto; [apply step_Inv, HI|].
-      destruct a; cbn [step]; unfold teardown, set_closed; try discriminate; break; simp; auto; try discriminate; intros; auto;
-        try (apply Hm; congruence). }
-    intros s0 HI0 Hc. destruct (knd (run s0 acts)) eqn:Ek.
-    - (* still KNone *) exfalso. admit.
-    - apply G; auto; [|congruence]. admit.
-    - apply G; auto; [|congruence]. admit. }
+  assert (HM : InvM s) by (apply run_M; auto; [apply init_Inv | intros H; exfalso; apply H; reflexivity]).
+  assert (Hk : knd s <> KNone).
+  { intros Hk. destruct HI as (HK & _). rewrite (HK Hk) in Hcl. discriminate. }
+  destruct (HM Hk) as [Hm Hr].
   destruct (quiescent_once s HI Hq) as (_ & Hn & _). destruct (Hn Hm Hcl) as (e & Hnotes & _).
   unfold cs_of; cbn [ckind nclose ndial]. rewrite Hnotes. cbn [length Nat.eqb].
-  destruct (knd s) eqn:Ek.
-  - destruct HI as (HK & _). rewrite (HK Ek) in Hcl. discriminate.
-  - reflexivity.
-  - assert (Hr : rej s = false) by admit.
-    destruct (quiescent_dial s HI Hq Ek Hr (or_introl Hcl)) as (r & Hd). rewrite Hd. reflexivity.
-Admitted.
+  destruct (knd s) eqn:Ek; [congruence|reflexivity|].
+  destruct (quiescent_dial s HI Hq Ek Hr (or_introl Hcl)) as (r & Hd). rewrite Hd. reflexivity.
+Qed.
+
+(* ---- what a legal log guarantees, as statements about the log itself ---- *)
+Lemma check1_started c e c' : check1 c e = Some c' -> started c' = true ->
+  started c = true \/ e = EOpen \/ e = EDialStart.
+Proof.
+  destruct e; cbn [check1]; unfold started; intros H; auto;
+    repeat match type of H with
+    | context [match ?x with _ => _ end] => destruct x eqn:?; try discriminate
+    end; inversion H; subst; cbn in *; auto.
+Qed.
+
+Lemma check_started l : forall c c', check c l = Some c' -> started c' = true ->
+  started c = true \/ In EOpen l \/ In EDialStart l.
+Proof.
+  induction l as [|e l IH]; intros c c' H Hs; cbn [check] in H.
+  - inversion H; subst; auto.
+  - destruct (check1 c e) as [c1|] eqn:E1; [|discriminate].
+    destruct (IH _ _ H Hs) as [H1|[H1|H1]].
+    + destruct (check1_started _ _ _ E1 H1) as [H2|[H2|H2]]; auto; subst; right; [left|right]; left; reflexivity.
+    + right; left; right; auto.
+    + right; right; right; auto.
+Qed.
+
+Lemma legal_open_before_close pre e post : legal (pre ++ EClose e :: post) = true -> In EOpen pre \/ In EDialStart pre.
+Proof.
+  unfold legal. rewrite check_app. destruct (check cinit pre) as [c1|] eqn:E1; [|discriminate].
+  cbn [check]. destruct (check1 c1 (EClose e)) as [c2|] eqn:E2; [|discriminate]. intros _.
+  assert (Hs : started c1 = true).
+  { cbn [check1] in E2. destruct (started c1); auto. discriminate. }
+  destruct (check_started _ _ _ E1 Hs) as [H|H]; auto. discriminate.
+Qed.
